@@ -45,7 +45,12 @@ RULE = ("Options = every entry of behave.configuration.OPTIONS that has a positi
         "and Cyrillic), names with '.', '-', '_' (and ':' in TOML/-D), formatter and runner alias families, in every "
         "file format x {file only (one spelling / all spellings together), -D only, file x -D 3x3, two files 3x3} "
         "(thorough: x ini delimiters '=', ' = ', tab, ':'); -D overrides the same spelling only, getint finds the "
-        "exact spelling, -f/-r accept the alias as spelled; (6) ordered pairs of build specs: Configuration A then B in one process without "
+        "exact spelling, -f/-r accept the alias as spelled; (5d) non-ASCII text (Latin-1 range, cp1252-only signs, Cyrillic, CJK) in "
+        "every text/list option a file can carry and in userdata names/values, ini and toml, cwd/HOME/third directory, "
+        "crossed with what sys.stdout is while the configuration is read {harness StringIO, the real stdout, "
+        "TextIOWrapper latin-1/cp1252/ascii/utf-8, object without encoding}: values arrive as written (files are "
+        "UTF-8), ini == toml, none of it depends on stdout; also command-line text and -D with non-ASCII text; "
+        "(6) ordered pairs of build specs: Configuration A then B in one process without "
         "reset, B must equal a fresh B. In every build ALL options are compared (mentioned ones with the precedence "
         "rule, all others with the documented default), except options rewritten by an active documented mode switch "
         "(--wip, --quiet, --steps-catalog, --junit). A case is non-trivial (distinct by sweep, options, placement, "
@@ -61,6 +66,10 @@ ASSUMPTIONS = [
     "argparse prefix abbreviations are not covered",
     "subsets larger than 3 options are covered only by the all-options-at-once cases",
     "whether an already constructed reporter follows config.update_userdata() is not stated: observed, not judged",
+    "config files are UTF-8 on disk and the process runs with a UTF-8 locale/utf8 mode; other locales not varied",
+    "command-line arguments are passed as a list of text (no byte decoding, no shlex); the string/bytes forms of "
+    "command_args, whose decoding may legitimately use the stream encoding in make_command_args, are not covered",
+    "environment-variable sources (BEHAVE_STAGE, BEHAVE_COLOR) are not part of the precedence sweep",
 ]
 
 ABSENT = "<absent>"
@@ -222,6 +231,7 @@ def init_worker():
     _SNAP["log"] = (list(root.handlers), root.level)
     _SNAP["env"] = {k: os.environ.get(k) for k in ("HOME", "BEHAVE_STAGE", "BEHAVE_COLOR", "APPDATA")}
     _SNAP["cwd"] = os.getcwd()
+    _SNAP["stdout"] = sys.stdout
     from behave.formatter import _registry as _freg
     _SNAP["formatters"] = set(dict.keys(_freg._formatter_registry))
 
@@ -369,6 +379,47 @@ class Scratch(object):
         shutil.rmtree(self.root, ignore_errors=True)
 
 
+STDOUT_KINDS = (None, "real", "latin-1", "cp1252", "ascii", "utf-8", "noenc")
+
+
+class NoEncStream(object):
+    """an output stream without an `encoding` attribute"""
+    def __init__(self):
+        self.parts = []
+
+    def write(self, text):
+        self.parts.append(text if isinstance(text, str) else text.decode("utf-8", "replace"))
+
+    def flush(self):
+        pass
+
+
+def make_stdout(kind):
+    """what sys.stdout is while behave reads its configuration (must not influence what is read)"""
+    if kind is None:
+        return io.StringIO()
+    if kind == "real":
+        return _SNAP["stdout"]
+    if kind == "noenc":
+        return NoEncStream()
+    return io.TextIOWrapper(io.BytesIO(), encoding=kind, errors="backslashreplace", write_through=True)
+
+
+def stdout_text(stream):
+    if isinstance(stream, io.StringIO):
+        return stream.getvalue()
+    if isinstance(stream, NoEncStream):
+        return "".join(stream.parts)
+    if isinstance(stream, io.TextIOWrapper) and isinstance(stream.buffer, io.BytesIO):
+        return stream.buffer.getvalue().decode(stream.encoding, "replace")
+    return ""
+
+
+def stdout_class(so):
+    return "harness-StringIO" if so is None else ("real" if so == "real" else "no-encoding-attr" if so == "noenc"
+                                                  else "encoding=" + so)
+
+
 def norm_value(v, root):
     import re as _re
     import enum
@@ -404,14 +455,14 @@ def build(spec):
         obs["args"] = tuple(args)
         os.chdir(sc.cwd)
         os.environ["HOME"] = sc.home
-        sys.stdout, sys.stderr = io.StringIO(), io.StringIO()
+        sys.stdout, sys.stderr = make_stdout(spec.get("stdout")), io.StringIO()
         try:
             cfg = Configuration(list(args))
         except BaseException as e:      # SystemExit (argparse error) included
             obs["exc"] = type(e).__name__
             obs["exc_text"] = norm_value("%s | %s" % (e, sys.stderr.getvalue()[-300:]), sc.root)
             cfg = None
-        obs["stdout"] = norm_value(sys.stdout.getvalue(), sc.root)
+        obs["stdout"] = norm_value(stdout_text(sys.stdout), sc.root)
         if cfg is not None:
             opts = {}
             for dest in DESTS:
@@ -1294,6 +1345,184 @@ def run_names(spec):
             "dg": dg}
 
 
+# ---- what behave reads from a config file must not depend on unrelated process state -----------------------
+# (a) NON-ASCII text in config-file values and userdata names/values, per option kind, ini and toml (the files are
+# UTF-8 on disk); (b) sys.stdout while Configuration()/read_configuration() runs: the harness StringIO, the real one,
+# TextIOWrapper(BytesIO) with latin-1 / cp1252 / ascii / utf-8, an object without `encoding`.  Same oracle as
+# everywhere: the value arrives as written, ini and toml agree, relative paths resolve against the file's directory.
+# Letters: Latin-1 range, cp1252-only signs (euro, em dash), letters whose UTF-8 bytes are undefined in cp1252, CJK.
+U_TEXT = {
+    "stage": ("étape", "prüfung"),
+    "junit_directory": ("rapports/été", "вывод"),
+    "logging_format": ("%(message)s €", "ü %(name)s"),
+    "logging_datefmt": ("%H·%M", "%d—%m"),
+    "logging_filter": ("föö,-bär", "名"),
+    "runner": ("pkg:Ränner", "mód:Cláss"),
+    "exclude_re": ("é.*x", "ß+"),
+    "include_re": ("größe.*", "А[а-я]+"),
+    "scenario_outline_annotation_schema": ("{name} — @{row.id}", "{name} «{row.index}»"),
+    "lang": ("dé", "日"),
+    "default_format": ("pläin", "prögress"),
+}
+U_LIST = {
+    "name": (("prüfung", "日本語 test"), ("Árbol",)),
+    "tags": (("@größe", "@été"), ("@тег",)),
+    "default_tags": (("@défaut",), ("@über", "@Å")),
+    "outfiles": (("sortie/résultat.txt", "ü.txt"), ("../вывод/o.txt",)),
+    "paths": (("fonctionnalités/a", "../ünter/b.feature"), ("機能/x.feature",)),
+}
+U_USERDATA = (("größe", "42"), ("clé", "valeur été €"), ("名前", "値"),
+              ("plain", "ÁÍÝА"))
+U_PROBE = "größe"
+
+
+def gen_encoding(quick):
+    fnames = ("behave.ini", TOML_NAME) if quick else FILE_NAMES
+    both = sorted(U_TEXT.items()) + sorted(U_LIST.items())
+    for so in STDOUT_KINDS:
+        wheres = ("cwd", "home") if (not quick or so in (None, "latin-1")) else ("home",)
+        for fname in fnames:
+            for where in wheres:
+                for i in (0, 1):
+                    for dest, vals in both:
+                        if dest not in OPTS:
+                            continue
+                        if quick and i == 1 and so not in (None, "latin-1", "cp1252"):
+                            continue
+                        yield {"t": "encoding", "stdout": so, "files": (fspec(where, fname, [(dest, vals[i])]),)}
+                # everything at once + userdata; userdata alone; a command-line value over the file value
+                allopts = [(d, v[0]) for d, v in both if d in OPTS]
+                yield {"t": "encoding", "stdout": so, "files": (fspec(where, fname, allopts, U_USERDATA),)}
+                yield {"t": "encoding", "stdout": so, "files": (fspec(where, fname, [], U_USERDATA),), "probe": (U_PROBE,)}
+                yield {"t": "encoding", "stdout": so,
+                       "files": (fspec(where, fname, [("stage", U_TEXT["stage"][0])], U_USERDATA),),
+                       "cmd": (("stage", U_TEXT["stage"][1], ("eq", "--stage")),
+                               ("name", U_LIST["name"][1], ("sep", "-n"))),
+                       "ud_cmd": (("sep", "clé=ça"), ("sep", "новый=да")),
+                       "probe": (U_PROBE,)}
+        # command line only (arguments are given as text, no decoding involved)
+        yield {"t": "encoding", "stdout": so,
+               "cmd": (("stage", U_TEXT["stage"][0], ("sep", "--stage")), ("tags", U_LIST["tags"][0], ("sep", "-t")),
+                       ("outfiles", U_LIST["outfiles"][0], ("sep", "-o")), ("paths", U_LIST["paths"][0], ("positional",))),
+               "ud_cmd": (("sep", U_PROBE + "=43"),), "probe": (U_PROBE,)}
+
+
+def run_encoding(spec):
+    spec = dict(spec)
+    probe = spec.pop("probe", ())
+    reset_state()
+    obs = build(spec)
+    v = []
+    compare(spec, obs, v, "encoding")
+    check_userdata(spec, obs, v)
+    if "exc" not in obs:
+        want = {}
+        for f in spec.get("files", ()):
+            want.update(dict(f.get("ud") or ()))
+        for form, text in spec.get("ud_cmd", ()):
+            k, val = ref_define(text)[0]
+            want[k] = val
+        for nm in probe:
+            try:
+                r = obs["cfg"].userdata.getint(nm, -1)
+            except Exception as e:
+                r = "EXC:" + type(e).__name__
+            if r != int(want[nm]) and not any(d.get("subcheck") == "userdata" for d, _ in v):
+                v.append(({"subcheck": "userdata", "clause": "getter-exact-name"},
+                          "userdata.getint(%r, -1) = %r, expected %s" % (nm, r, want[nm])))
+        st = obs["opts"].get("stage")
+        if st and "stage" in assigned(spec):
+            if obs["steps_dir"] != st + "_steps" or obs["environment_file"] != st + "_environment.py":
+                v.append(({"subcheck": "options", "clause": "derived-attribute", "what": "steps_dir"},
+                          "stage %r but steps_dir %r, environment_file %r" % (st, obs["steps_dir"], obs["environment_file"])))
+    # none of it may depend on what sys.stdout is: the descriptor names the stdout class that triggered it
+    out_v = one_encoding_violation(v, names_filekind(spec), spec.get("stdout"), "Configuration")
+    dg = [(k, val) for k, val in digestable(obs) if k != "stdout"]
+    reset_state()
+    return {"v": out_v, "nt": ("encoding", repr(spec)), "dg": dg, "out": ("encoding", digest(dg))}
+
+
+def one_encoding_violation(v, filekind, so, route):
+    """all symptoms of one build collapse into one violation: non-ASCII text of a config source did not arrive as
+    written; the descriptor names the source kind and the kind of sys.stdout under which it happened"""
+    if not v:
+        return []
+    exc = [d.get("exc") for d, _ in v if d.get("clause") == "build-raises"]
+    desc = {"subcheck": "encoding", "clause": "non-ascii-text-as-written", "filekind": filekind,
+            "stdout": stdout_class(so), "outcome": ("raises:%s" % exc[0]) if exc else "wrong-value"}
+    return [(desc, "[sys.stdout: %s; %s] %s%s" % (stdout_class(so), route, v[0][1],
+                                                  (" (+%d more symptoms: %s)" % (len(v) - 1, sorted(set(
+                                                      d.get("clause", "?") for d, _ in v[1:])))) if len(v) > 1 else ""))]
+
+
+def gen_read_enc(quick):
+    for so in STDOUT_KINDS:
+        for fname in (("behave.ini", "setup.cfg", TOML_NAME) if quick else FILE_NAMES):
+            for where in ("conf", "abs"):
+                yield (so, fname, where)
+
+
+def run_read_enc(case):
+    """read_configuration(path) of a UTF-8 file with non-ASCII content under every kind of sys.stdout"""
+    so, fname, where = case
+    from behave.configuration import read_configuration
+    reset_state()
+    fopts = [("format", ("plain", "json")), ("outfiles", U_LIST["outfiles"][0][:1]), ("paths", U_LIST["paths"][0]),
+             ("stage", U_TEXT["stage"][0]), ("name", U_LIST["name"][0]), ("logging_format", U_TEXT["logging_format"][0])]
+    root = tempfile.mkdtemp(prefix="c20-%s-" % RUN_TAG, dir="/dev/shm")
+    cwd = os.path.join(root, "t", "work")
+    confdir = os.path.join(root, "t", "elsewhere") if where == "abs" else os.path.join(cwd, where)
+    arg = os.path.join(confdir, fname) if where == "abs" else os.path.join(where, fname)
+    conf_tok = confdir.replace(root, S_TOKEN)
+    cwd_tok = os.path.join(S_TOKEN, "t", "work")
+    old_out = sys.stdout
+    try:
+        os.makedirs(cwd)
+        os.makedirs(confdir, exist_ok=True)
+        with open(os.path.join(confdir, fname), "w", encoding="utf-8") as fh:
+            fh.write(render_file(fspec("cwd", fname, fopts, U_USERDATA)))
+        os.chdir(cwd)
+        sys.stdout = make_stdout(so)
+        try:
+            data = read_configuration(arg)
+            got = {k: norm_value(data.get(k), root) for k in ("format", "outfiles", "paths", "stage", "name",
+                                                              "logging_format")}
+            got["userdata"] = tuple(sorted((data.get("userdata") or {}).items()))
+        except Exception as e:
+            got = ("EXC", type(e).__name__, norm_value(str(e), root))
+    finally:
+        sys.stdout = old_out
+        os.chdir(_SNAP["cwd"])
+        shutil.rmtree(root, ignore_errors=True)
+    so_class = stdout_class(so)
+    fk = "toml" if fname == TOML_NAME else "ini"
+    v = []
+    if isinstance(got, tuple):
+        v.append(({"subcheck": "options", "clause": "build-raises", "exc": got[1]},
+                  "read_configuration(%r) raised %s: %s" % (fname, got[1], got[2])))
+        return {"v": one_encoding_violation(v, fk, so, "read_configuration"), "dg": got, "out": ("read-enc", "exc")}
+    want = {"format": ("plain", "json"),
+            "outfiles": path_key(conf_tok, U_LIST["outfiles"][0][:1] + ("json.output",)),
+            "paths": path_key(conf_tok, U_LIST["paths"][0]), "stage": U_TEXT["stage"][0],
+            "name": U_LIST["name"][0], "logging_format": U_TEXT["logging_format"][0],
+            "userdata": tuple(sorted(U_USERDATA))}
+    for k in sorted(want):
+        g = got[k]
+        if k in ("outfiles", "paths"):
+            g = path_key(cwd_tok, g or ())
+        elif isinstance(g, list):
+            g = tuple(g)
+        if g != want[k]:
+            v.append(({"subcheck": "options" if k != "userdata" else "userdata", "clause": "file>default",
+                       "kind": "userdata" if k == "userdata" else OPTS[k]["kind"], "filekind": fk,
+                       "text": "non-ascii", "stdout": so_class, "route": "read_configuration"},
+                      "[sys.stdout: %s] read_configuration(%r): %s expected %r, observed %r"
+                      % (so_class, arg.replace(root, S_TOKEN), k, want[k], g)))
+    reset_state()
+    return {"v": one_encoding_violation(v, fk, so, "read_configuration"), "nt": ("read-enc", case),
+            "dg": sorted(got.items()), "out": ("read-enc", digest(sorted(got.items())))}
+
+
 # ---- rebuild differential -----------------------------------------------------
 def run_rebuild(case):
     """build A then B in one process without any reset in between; B must look like a fresh B"""
@@ -1797,6 +2026,10 @@ def run(ctx):
               name="userdata consumers built at construction (reporters, formatter)")
     ctx.sweep(run_names, gen_names(quick), chunk=32,
               name="case-sensitive names: userdata, formatter and runner aliases")
+    ctx.sweep(run_encoding, gen_encoding(quick), chunk=32,
+              name="non-ASCII config text x kind of sys.stdout (Configuration)")
+    ctx.sweep(run_read_enc, gen_read_enc(quick), chunk=8,
+              name="non-ASCII config text x kind of sys.stdout (read_configuration)")
     ctx.sweep(run_define, gen_defines(), chunk=8, name="-D grammar")
     ctx.sweep(run_build, gen_userdata_override(quick), chunk=32, name="userdata file vs -D")
     getters = [(g, val, dg, via) for g in ("getint", "getfloat", "getbool", "getas_int") for val in GETTER_VALUES
